@@ -130,6 +130,9 @@ pub fn parse(pasted: &[PastedLine]) -> RefProgram {
             "ret" | "uret" if ops.is_empty() => Flow::Return,
             "jr" if ops.len() == 1 && is_ra(&ops[0]) => Flow::Return,
             "jalr" if ops.len() == 3 && is_zero(&ops[0]) && is_ra(&ops[1]) && ops[2] == "0" => Flow::Return,
+            // a call through a register: comes back to the next instruction (where it goes is not
+            // modelled; the generator only calls helpers that return)
+            "jalr" if ops.len() == 3 && is_ra(&ops[0]) && ops[2] == "0" => Flow::Plain,
             "j" | "b" if ops.len() == 1 => Flow::Jump(ops[0].clone()),
             "call" if ops.len() == 1 => Flow::Call(ops[0].clone()),
             "jal" if ops.len() == 1 => Flow::Call(ops[0].clone()),
@@ -241,6 +244,13 @@ pub fn parse(pasted: &[PastedLine]) -> RefProgram {
             let (ld, fill) = (&p.instrs[k - 1], &p.instrs[k - 2]);
             let loads_a7 = ld.mnemonic == "lw" && ld.operands.len() == 2 && (ld.operands[0] == "a7" || ld.operands[0] == "x17") && matches!(ld.operands[1].as_str(), "0(sp)" | "0(x2)");
             runtime_number = loads_a7 && fill.flow == Flow::Ecall && matches!(fill.ecall_number, Some(8 | 63));
+        }
+        if flow == Flow::Ecall && ecall_number.is_none() && !runtime_number && p.instrs.len() >= 2 {
+            // ... or a function was called through a register after a7 had been set: it may have changed it
+            //   li a7, N; jalr ra, R, 0; li a0, 42; ecall
+            let k = p.instrs.len();
+            let through_register = |x: &RefInstr| x.mnemonic == "jalr" && x.operands.len() == 3 && is_ra(&x.operands[0]);
+            runtime_number = through_register(&p.instrs[k - 1]) || (p.instrs[k - 1].mnemonic == "li" && !matches!(p.instrs[k - 1].operands.first().map(String::as_str), Some("a7" | "x17")) && through_register(&p.instrs[k - 2]));
         }
         // interrupt handler installation: `la R, L` directly before a csr write to utvec (5)
         if matches!(mn.as_str(), "csrrw" | "csrw") {
@@ -391,6 +401,10 @@ impl RefProgram {
                         }
                         seen[i] = true;
                         let succs = self.required_succs(i)?;
+                        // (the same class as above: an ecall whose number the model cannot read off)
+                        if matches!(self.instrs[i].flow, Flow::Ecall) && self.instrs[i].ecall_number.is_none() && !self.instrs[i].ecall_number_is_runtime_input {
+                            return None;
+                        }
                         if let Flow::Call(l) = &self.instrs[i].flow {
                             st.push(self.target(l)?);
                         }
